@@ -1,6 +1,262 @@
 package main
 
-import "github.com/imroc/req/v3/verifharness/hk"
+import (
+	"bytes"
+	"context"
+	"fmt"
+	"io"
+	"net"
+	"time"
 
-func runH2(r *hk.Run, rng *hk.Rand) {}
+	req "github.com/imroc/req/v3"
+	"github.com/imroc/req/v3/verifharness/hk"
+	"github.com/imroc/req/v3/verifharness/wire"
+)
+
+type h2Seen struct {
+	Mode     string `json:"mode"`
+	CallErr  string `json:"call_err"`
+	ReadErr  string `json:"read_err"`
+	Class    string `json:"class"`
+	DLen     int    `json:"delivered"`
+	PrefixOK bool   `json:"prefix_ok"`
+	FollowOK bool   `json:"follow_ok"`
+	FollowEr string `json:"follow_err,omitempty"`
+	SameConn bool   `json:"same_conn"`
+	Panic    string `json:"panic,omitempty"`
+	Hung     bool   `json:"hung,omitempty"`
+}
+
+func newH2Client(addr string) *req.Client {
+	c := req.C().DisableAutoDecode().SetTimeout(25 * time.Second).EnableH2C().EnableForceHTTP2()
+	c.SetDialTLS(func(ctx context.Context, network, _ string) (net.Conn, error) {
+		var d net.Dialer
+		return d.DialContext(ctx, network, addr)
+	})
+	return c
+}
+
+// h2Exchange: request 1 (scripted), read to the end, then request 2 on the same client.
+func h2Exchange(srv *wire.H2Server, sc *wire.H2Script, sent []byte, auto bool) (o h2Seen) {
+	o.Mode = "manual"
+	if auto {
+		o.Mode = "auto"
+	}
+	id := nextID()
+	sc.Follow = []byte("follow-up body of " + id)
+	srv.Register(id, sc)
+	defer srv.Unregister(id)
+	c := newH2Client(srv.Addr())
+	done := make(chan struct{})
+	go func() {
+		defer close(done)
+		defer func() {
+			if p := recover(); p != nil {
+				o.Panic = fmt.Sprint(p)
+			}
+		}()
+		var data []byte
+		if auto {
+			resp, err := c.R().Get("http://h2.test/x/" + id + "/1")
+			if err != nil {
+				o.CallErr = err.Error()
+			}
+			if resp != nil {
+				data = resp.Bytes()
+			}
+		} else {
+			resp, err := c.R().DisableAutoReadResponse().Get("http://h2.test/x/" + id + "/1")
+			if err != nil {
+				o.CallErr = err.Error()
+			} else {
+				var rerr error
+				data, rerr = io.ReadAll(resp.Body)
+				resp.Body.Close()
+				if rerr != nil {
+					o.ReadErr = rerr.Error()
+				}
+				o.Class = wire.ClassifyH2(rerr)
+			}
+		}
+		o.DLen = len(data)
+		o.PrefixOK = len(data) <= len(sent) && bytes.Equal(data, sent[:len(data)])
+		resp2, err2 := c.R().Get("http://h2.test/x/" + id + "/2")
+		switch {
+		case err2 != nil:
+			o.FollowEr = err2.Error()
+		case resp2.StatusCode != 200 || !bytes.Equal(resp2.Bytes(), sc.Follow):
+			o.FollowEr = fmt.Sprintf("status %d body %q", resp2.StatusCode, trunc(resp2.Bytes(), 80))
+		default:
+			o.FollowOK = true
+		}
+		c.GetTransport().CloseIdleConnections()
+	}()
+	select {
+	case <-done:
+	case <-time.After(60 * time.Second):
+		o.Hung = true
+		return
+	}
+	c1, c2 := sc.Seen()
+	if len(c1) > 0 && len(c2) > 0 {
+		o.SameConn = c1[0] == c2[len(c2)-1]
+	}
+	return
+}
+
+func runH2(r *hk.Run, rng *hk.Rand) {
+	srv, err := wire.NewH2Server()
+	if err != nil {
+		r.Fail(hk.Failure{Sig: "harness:h2-setup", What: "HTTP/2 scripted peer could not be set up: " + err.Error()})
+		return
+	}
+	defer srv.Close()
+	n := r.Scale(260, 5000)
+	lens := []int{0, 1, 2, 5, 100, 1000, 4096, 16384, 16385, 40000}
+	terms := []string{"end", "end-empty", "trailers", "rst", "goaway-close", "close", "cutframe", "end", "hdr-end", "no-headers"}
+	for i := 0; i < n; i++ {
+		L := hk.Pick(rng, lens)
+		body := wire.GenBody(rng, L)
+		term := terms[i%len(terms)]
+		pieces := wire.Partition(rng, body, L <= 100 && rng.Chance(20), 12)
+		// declared length
+		clMode := []string{"exact", "none", "more", "less", "exact"}[rng.Intn(5)]
+		if term == "hdr-end" {
+			pieces = nil
+			clMode = hk.Pick(rng, []string{"exact", "none", "more"})
+			body = nil
+			L = 0
+		}
+		cl := -1
+		switch clMode {
+		case "exact":
+			cl = L
+		case "more":
+			cl = L + rng.Range(1, 9)
+		case "less":
+			if L == 0 {
+				clMode, cl = "exact", 0
+			} else {
+				cl = L - rng.Range(1, min(L, 9))
+			}
+		}
+		sc := &wire.H2Script{Status: 200, Fields: []wire.Field{{Name: "content-type", Value: "application/octet-stream"}}}
+		if cl >= 0 {
+			sc.Fields = append(sc.Fields, wire.Field{Name: "content-length", Value: fmt.Sprint(cl)})
+		}
+		var evs []string
+		var sent []byte
+		keep := len(pieces) // DATA frames delivered before the terminal
+		if term != "end" && term != "end-empty" && term != "trailers" && len(pieces) > 0 && rng.Chance(70) {
+			keep = rng.Intn(len(pieces) + 1)
+		}
+		for j := 0; j < keep; j++ {
+			last := j == len(pieces)-1 && term == "end"
+			a := wire.H2Action{Kind: "data", Payload: pieces[j], End: last}
+			if rng.Chance(15) {
+				a.Pad = rng.Range(1, 30)
+			}
+			sc.Actions = append(sc.Actions, a)
+			evs = append(evs, fmt.Sprintf("H2Data %s %s", coqBig(pieces[j]), hk.CoqBool(last)))
+			sent = append(sent, pieces[j]...)
+		}
+		switch term {
+		case "end":
+			if len(pieces) == 0 {
+				sc.Actions = append(sc.Actions, wire.H2Action{Kind: "data", End: true})
+				evs = append(evs, "H2Data [] true")
+			}
+		case "end-empty":
+			sc.Actions = append(sc.Actions, wire.H2Action{Kind: "data", End: true})
+			evs = append(evs, "H2Data [] true")
+		case "trailers":
+			sc.Trailers = []wire.Field{{Name: "x-trailer", Value: "t"}}
+			sc.Actions = append(sc.Actions, wire.H2Action{Kind: "trailers"})
+			evs = append(evs, "H2Trailers")
+		case "rst":
+			code := hk.Pick(rng, []uint32{0, 1, 2, 8, 11})
+			sc.Actions = append(sc.Actions, wire.H2Action{Kind: "rst", Code: code})
+			evs = append(evs, fmt.Sprintf("H2Rst %s", hk.CoqN(uint64(code))))
+		case "goaway-close":
+			sc.Actions = append(sc.Actions, wire.H2Action{Kind: "goaway-close", Code: hk.Pick(rng, []uint32{0, 2})})
+			evs = append(evs, "H2GoAwayClose")
+		case "close":
+			sc.Actions = append(sc.Actions, wire.H2Action{Kind: "close"})
+			evs = append(evs, "H2ConnEnd")
+		case "cutframe":
+			var p []byte
+			if keep < len(pieces) {
+				p = pieces[keep]
+			} else {
+				p = []byte("tail")
+			}
+			cut := rng.Range(1, 9+len(p)-1)
+			if rng.Chance(30) {
+				cut = rng.Range(1, 8) // inside the 9-byte frame header
+			}
+			sc.Actions = append(sc.Actions, wire.H2Action{Kind: "cutframe", Payload: p, End: true, Cut: cut})
+			evs = append(evs, "H2ConnEnd")
+		case "hdr-end":
+			sc.HdrEnd = true
+		case "no-headers":
+			sc.Status = -1
+			evs = []string{"H2ConnEnd"}
+		}
+		auto := i%4 == 3
+		o := h2Exchange(srv, sc, sent, auto)
+		sig := fmt.Sprintf("h2:%s:cl-%s:%s", term, clMode, o.Mode)
+		r.Count("h2.term=" + term)
+		r.Count("h2.cl=" + clMode)
+		in := map[string]interface{}{"terminal": term, "content_length": cl, "body_len": L, "data_frames_sent": keep, "of": len(pieces), "sent_bytes": len(sent), "mode": o.Mode}
+		success := o.CallErr == "" && o.ReadErr == ""
+		// the message is complete and consistent iff it ended with END_STREAM after all the
+		// data and the declared length (if any) equals what was sent
+		properEnd := term == "end" || term == "end-empty" || term == "trailers" || term == "hdr-end"
+		consistent := properEnd && (cl < 0 || cl == len(sent)) && keep == len(pieces)
+		switch {
+		case o.Panic != "" || o.Hung:
+			r.Fail(hk.Failure{Sig: "h2:panic-or-hang:" + sig, What: "exchange panicked or hung", Input: in, Got: o})
+		case success && !consistent:
+			r.Fail(hk.Failure{Sig: "h2:bad-message-success:" + sig, What: "a stream that was reset/cut or whose DATA total differs from content-length was reported as success", Input: in, Got: o, Want: "an error from the call or from reading the body"})
+		case success && (o.DLen != len(sent) || !o.PrefixOK):
+			r.Fail(hk.Failure{Sig: "h2:wrong-body:" + sig, What: "success with a body different from what the origin sent", Input: in, Got: o})
+		case !success && consistent:
+			r.Fail(hk.Failure{Sig: "h2:complete-failed:" + sig, What: "a complete, consistent response was reported as an error", Input: in, Got: o})
+		}
+		if !o.PrefixOK {
+			r.Fail(hk.Failure{Sig: "h2:not-prefix:" + sig, What: "delivered bytes are not a prefix of the DATA the origin sent", Input: in, Got: o})
+		}
+		if !o.FollowOK {
+			r.Fail(hk.Failure{Sig: "h2:follow-up-failed:" + sig, What: "the request after the exchange did not succeed with its own body", Input: in, Got: o})
+		}
+		connEnded := term == "goaway-close" || term == "close" || term == "cutframe" || term == "no-headers"
+		if connEnded && o.SameConn {
+			r.Fail(hk.Failure{Sig: "h2:dead-conn-reused:" + sig, What: "follow-up request used the connection the peer had ended", Input: in, Got: o})
+		}
+		coq := ""
+		if !auto {
+			seen := "H2SeenCallErr"
+			if o.CallErr == "" {
+				cls := o.Class
+				if cls == "" {
+					cls = "H2Pending"
+				}
+				seen = fmt.Sprintf("(H2SeenRead %s %s %s)", cls, hk.CoqN(uint64(o.DLen)), hk.CoqBool(o.PrefixOK))
+			}
+			coq = fmt.Sprintf("H2Case %s %s %s %s %s %s %s", hk.CoqOpt(cl >= 0, hk.CoqN(uint64(max(cl, 0)))), hk.CoqBool(sc.HdrEnd),
+				hk.CoqBool(sc.Status < 0), hk.CoqList(parens(evs)), coqBig(sent), seen, hk.CoqBool(o.SameConn))
+		}
+		r.Add(hk.Case{Coq: coq, Desc: map[string]interface{}{"kind": "h2", "script": in, "seen": o}},
+			fmt.Sprintf("h2|%s|%d|%d|%d|%x|%s", term, cl, keep, len(pieces), sent, o.Mode), !consistent)
+	}
+}
+
+func parens(xs []string) []string {
+	o := make([]string, len(xs))
+	for i, x := range xs {
+		o[i] = "(" + x + ")"
+	}
+	return o
+}
+
 func runH3(r *hk.Run, rng *hk.Rand) {}
